@@ -81,7 +81,7 @@ def prop_set(draw, kind_hint=None, values=None):
 
 
 @st.composite
-def program(draw, weights=None, min_steps=8, max_steps=30, prefixes=PREFIXES, seed_bare=True, fancy_names=True, cond_rate=4, prop_values=None, restart_rate=None, focus=False, sparse_rate=0):
+def program(draw, weights=None, min_steps=8, max_steps=30, prefixes=PREFIXES, seed_bare=True, fancy_names=True, cond_rate=4, prop_values=None, restart_rate=None, focus=False, sparse_rate=0, locked_rate=0):
     w = dict(DEFAULT_WEIGHTS)
     if weights:
         w.update(weights)
@@ -198,4 +198,7 @@ def program(draw, weights=None, min_steps=8, max_steps=30, prefixes=PREFIXES, se
                 steps.append({"op": "RACE", "fe": "aio", "afe": afe, "coll": "a1", "name": draw(st.sampled_from(vcf_names)), "ctype": "text/vcard", "body": enc_body(draw(st.sampled_from(card_bodies))["raw"]), "reader": draw(st.sampled_from(["get", "multiget"]))})
         elif op == "RESTART":
             steps.append({"op": "RESTART"})
+        if locked_rate and steps[-1]["op"] in ("PUT", "DELETE", "PROPPATCH", "POST") and steps[-1].get("name", "") is not None and draw(st.integers(0, locked_rate - 1)) == 0:
+            inner = steps.pop()
+            steps.append({"op": "LOCKED", "fe": inner["fe"], "afe": inner.get("afe", "wsgi"), "coll": inner["coll"], "inner": inner})
     return {"config": cfg, "steps": steps}
